@@ -32,7 +32,7 @@ for p, out in procs:
         if rec["type"] == "violation":
             a = rec.get("attribution") or {}
             key = (tuple(rec["sig"][1:]), tuple(a.get("culprit_names", [])), a.get("culprit_accuracy"), a.get("parent_root_accuracy"), tuple(sorted(set(a.get("culprit_writers", [])))),
-                   a.get("requires_fault"), a.get("approximate_factor_involved"), a.get("culprits_are_direct_results_of_queries_inexact_on_fresh_copy_too"))
+                   a.get("requires_fault"), a.get("approximate_factor_involved"), a.get("culprits_written_by_queries_inexact_on_fresh_copy_too"))
             groups[key].append(rec)
         elif rec["type"] == "harness_error":
             herr.append(rec)
